@@ -829,6 +829,9 @@ def rating_confinement(ctx, rule, injective=True):
 
 
 def function_classes(ctx, rule):
+    """R08.d: Word::is_function is true exactly for articles, prepositions, conjunctions and particles — decided as a
+    decision table over the part of speech by abstract interpretation (A13)"""
+    from .. import absint as AI
     facts = ctx.facts
     fb = None
     for b in facts.fns():
@@ -836,20 +839,35 @@ def function_classes(ctx, rule):
             fb = b
     if not ctx.require(rule, "Word::is_function", fb):
         return
-    sw = [x for x in U.enum_switches(ctx, fb) if x[1]["id"].endswith("PartOfSpeech")]
-    # the match is on Option<PartOfSpeech>: Some arm then the inner enum
-    true_set = set()
-    for (bi, adt, arms, other) in sw:
-        for name, blk in arms.items():
-            e = U.arm_ret_expr(ctx, fb, blk)
-            if e is not None and U.is_const(e) and S.const_value(e) is True:
-                true_set.add(name)
-    key = "function-classes"
+    pos_adt = None
+    for a in facts.adts.values():
+        if a["id"].endswith("pos::PartOfSpeech"):
+            pos_adt = a
+    if not ctx.require(rule, "PartOfSpeech", pos_adt):
+        return
     want = {"Article", "Preposition", "Conjunction", "Particle"}
-    if true_set == want:
-        ctx.ok(rule, key, fb.where(), "function words are exactly %s" % sorted(want), nontrivial=True)
+    true_set, undecided = set(), []
+    cases = [(v["name"], AI.some(("enum", pos_adt["id"], v["name"], ()))) for v in pos_adt["variants"]] + [("(none)", AI.NONE)]
+    for name, val in cases:
+        def oracle(t, args, body, val=val):
+            if (t.get("cn") or "").endswith("Word::pos"):
+                return [val]
+            return None
+        try:
+            res = AI.AbsInt(ctx, oracle).run_body(fb, [("sym", "self")])
+        except AI.Limit:
+            res = {AI.UNKNOWN}
+        if res == {AI.const(True)}:
+            true_set.add(name)
+        elif res != {AI.const(False)}:
+            undecided.append("%s -> %s" % (name, sorted(AI.show(x) for x in res)))
+    key = "function-classes"
+    if true_set == want and not undecided:
+        ctx.ok(rule, key, fb.where(), "function words are exactly %s (decision table over %d parts of speech and None)"
+               % (sorted(want), len(pos_adt["variants"])), nontrivial=True)
     else:
-        ctx.fail(rule, key, fb.where(), "is_function is true for %s, expected %s" % (sorted(true_set), sorted(want)),
+        ctx.fail(rule, key, fb.where(), "is_function is true for %s%s, expected %s" %
+                 (sorted(true_set), (" and undecided for " + "; ".join(undecided[:3])) if undecided else "", sorted(want)),
                  {"witness": "German query 'mal': the title 'mal' outranks 'malen'"})
 
 
@@ -971,7 +989,9 @@ def hit_filter(ctx, rule):
         bi, zero_side = nomatch_sw
         reaches_true = any(U.branch_reaches(cfg, bi, zero_side, {r}) for r in rets[True])
         reaches_false = any(U.branch_reaches(cfg, bi, zero_side, {r}) for r in rets[False])
-        others_dominated = all(cfg.dominates(bi, r) for r in rets[True] if not (empty_sw and cfg.dominates(empty_sw[1][1], r)))
+        # the test is made on every path on which the query is not empty (whatever the shape of the rest)
+        start = empty_sw[1][0] if empty_sw else 0
+        others_dominated = cfg.every_path_passes(start, [bi])
         if reaches_false and not reaches_true and others_dominated:
             ctx.ok(rule, key, where(fb, bi), "a record without any word match is rejected before any `true` result", nontrivial=True)
         else:
